@@ -270,3 +270,12 @@ Proof.
     now left.
   - now rewrite Hdw.
 Qed.
+
+(* several groups in one call: each group's results are those of the call with that group alone (the running total and the
+   dictionaries start afresh for every group), whatever precedes or follows it in group_list *)
+Theorem ordered_multi_independent : forall fuel len c gs1 g gs2,
+  nth (length gs1) (ordered_multi fuel len c (gs1 ++ g :: gs2)) (Err EFuel) = ordered_run fuel len c g.
+Proof.
+  intros. unfold ordered_multi. rewrite map_app. simpl.
+  rewrite app_nth2; rewrite map_length; [|lia]. now rewrite Nat.sub_diag.
+Qed.
